@@ -1343,42 +1343,45 @@ def wrapper_table(ctx, rule):
     """SpawnOptions -> process-wrap wrappers, by pattern semantics over the match in Command::to_spawnable"""
     f = ctx.anchor_one(rule, "Command::to_spawnable", ctx.facts.fns_matching(r"command::.*to_spawnable$", crate=SUP))
     root = thir.root(f)
-    ms = [m for m in thir.find(root, "match") if m["src"] == "Normal" and m["sty"].endswith("SpawnOptions")]
-    if len(ms) != 1:
-        ctx.violation(rule, "floor:spawn-options-match", "to_spawnable no longer matches on SpawnOptions once", f.loc(f.line))
-        return f
-    m = ms[0]
     SO = SUP + "::command::SpawnOptions"
+
+    def wraps_under(session, grouped, reset=None):
+        val = ("v", SO, "SpawnOptions", {"session": ("b", session), "grouped": ("b", grouped), "reset_sigmask": thir.ANY if reset is None else ("b", reset)})
+        d = {"self.options.session": session, "self.options.grouped": grouped}
+        if reset is not None:
+            d["self.options.reset_sigmask"] = reset
+        with pathx.reading_through(root):
+            calls, und = pathx.calls_under(root, d, {"self.options": val})
+        ws = []
+        for n in calls:
+            fnn = thir.peel(n["fn"])
+            if isinstance(fnn, dict) and strip_generics(fnn.get("def") or "").endswith("TokioCommandWrap::wrap"):
+                full = fnn.get("full", "")
+                ws.append((full[full.index("wrap::<") + 7:-1] if "wrap::<" in full else full).split("::")[-1])
+        leader = any(strip_generics((thir.peel(n["fn"]) or {}).get("def") or "").endswith("ProcessGroup::leader") for n in calls if isinstance(thir.peel(n["fn"]), dict))
+        return ws, leader, und
+    anyw, _, _ = wraps_under(True, True)
+    if not any(w in ("ProcessSession", "ProcessGroup") for w in anyw) and not any(w == "ProcessGroup" for w in wraps_under(False, True)[0]):
+        ctx.violation(rule, "floor:spawn-options-match", "to_spawnable no longer selects a process-group / session wrapper from its options", f.loc(f.line))
+        return f
     for session in (True, False):
         for grouped in (True, False):
-            val = ("v", SO, "SpawnOptions", {"session": ("b", session), "grouped": ("b", grouped), "reset_sigmask": thir.ANY})
-            i = thir.first_arm(m, val)
             key = "session=%s,grouped=%s" % (session, grouped)
-            if i is None:
-                ctx.incomplete(rule, "wrappers:" + key, "cannot decide the arm", f.loc(m["l"]))
+            ws, leader, und = wraps_under(session, grouped)
+            gw = [w for w in ws if w in ("ProcessSession", "ProcessGroup", "JobObject")]
+            und_ = [u for u in und if "options" in u and "reset_sigmask" not in u]
+            if und_:
+                ctx.incomplete(rule, "wrappers:" + key, "cannot decide the arm", f.loc(f.line), detail=str(und_)[:200])
                 continue
-            wraps = []
-            for c, n in thir.calls_in(m["arms"][i]["b"]):
-                if strip_generics(c).endswith("TokioCommandWrap::wrap"):
-                    full = thir.peel(n["fn"]).get("full", "")
-                    wraps.append(full[full.index("wrap::<") + 7:-1] if "wrap::<" in full else full)
-            want = ["process_wrap::tokio::session::ProcessSession"] if session else (["process_wrap::tokio::process_group::ProcessGroup"] if grouped else [])
-            short = [w.split("::")[-1] for w in wraps]
-            ctx.require(short == [w.split("::")[-1] for w in want], rule, "wrappers:" + key,
-                        "%s -> %s" % (key, short or "no group wrapper"), f.loc(m["arms"][i]["l"]),
-                        fail="with %s the command is wrapped with %s, expected %s: signals/kills may miss the rest of the process group or session"
-                             % (key, short, [w.split("::")[-1] for w in want]))
+            want = ["ProcessSession"] if session else (["ProcessGroup"] if grouped else [])
+            ctx.require(gw == want, rule, "wrappers:" + key, "%s -> %s" % (key, gw or "no group wrapper"), f.loc(f.line),
+                        fail="with %s the command is wrapped with %s, expected %s: signals/kills may miss the rest of the process group or session" % (key, gw, want))
             if not session and grouped:
-                leader = any(strip_generics(c).endswith("ProcessGroup::leader") for c, _ in thir.calls_in(m["arms"][i]["b"]))
-                ctx.require(leader, rule, "wrappers:group-leader", "a grouped command is made its group's leader", f.loc(m["arms"][i]["l"]))
+                ctx.require(leader, rule, "wrappers:group-leader", "a grouped command is made its group's leader", f.loc(f.line))
     # reset_sigmask
-    ifs = [n for n in thir.find(root, "if") if pathx.if_parts(n)[0].endswith("options.reset_sigmask")]
-    ok = False
-    if len(ifs) == 1:
-        _, t_, e_ = pathx.if_parts(ifs[0])
-        ok = t_ is not None and any("ResetSigmask" in thir.peel(n["fn"]).get("full", "") for c, n in thir.calls_in(t_)) \
-            and not (e_ is not None and any("ResetSigmask" in thir.peel(n["fn"]).get("full", "") for c, n in thir.calls_in(e_)))
-    ctx.require(ok, rule, "wrappers:reset-sigmask", "reset_sigmask => ResetSigmask wrapper", f.loc(f.line))
+    on = "ResetSigmask" in wraps_under(False, False, True)[0]
+    off = "ResetSigmask" in wraps_under(False, False, False)[0]
+    ctx.require(on and not off, rule, "wrappers:reset-sigmask", "reset_sigmask => ResetSigmask wrapper", f.loc(f.line))
     return f
 
 
